@@ -91,3 +91,17 @@ Example C06_run_tie :
   greedy_run_ok p cs 0 g [0; 1; 1; 2; 0] = false /\
   greedy_run_ok p cs 0 g [0; 1; 1; 2] = false.
 Proof. vm_compute. repeat split; reflexivity. Qed.
+
+(* ---- links ---- *)
+(** C06 o C03: with [max_ref = Some m], [m + 1] nested decodes of the random-access decoder
+    reach every node's list on the output of the greedy and of the Zuckerli-style
+    compressor (the depth hypothesis of C03_ra_fuel is discharged by C06) *)
+From WG Require Import BV.Bits BV.BitsFacts BV.Access BV.AccessStatements
+  Links.LoadLinkStatements Links.LoadLinkFacts.
+Theorem C06_link_ra_fuel_greedy : S_link_ra_fuel_greedy.
+Proof. exact link_ra_fuel_greedy. Qed.
+Print Assumptions C06_link_ra_fuel_greedy.
+
+Theorem C06_link_ra_fuel_zuck : S_link_ra_fuel_zuck.
+Proof. exact link_ra_fuel_zuck. Qed.
+Print Assumptions C06_link_ra_fuel_zuck.
